@@ -15,7 +15,8 @@ theorem flipAt_length (qs : List Bool) (q : Nat) : (flipAt qs q).length = qs.len
 theorem applyG_length {g : G} {bits : List Nat} {qs qs' : List Bool} (h : applyG g bits qs = some qs') :
     qs'.length = qs.length := by
   cases g <;> rcases bits with _ | ⟨a, _ | ⟨b, _ | ⟨c, _ | ⟨d, rest⟩⟩⟩⟩ <;> simp [applyG] at h <;>
-    (try (subst h; first | rfl | (simp [flipAt]; done) | (simp only [flipAt]; split <;> simp)))
+    (try (subst h; first | rfl | (simp [flipAt]; done) | (simp only [flipAt]; split <;> simp) |
+      (split <;> simp [flipAt_length])))
 
 theorem applyG_isSome_indep (g : G) (bits : List Nat) (qs qs' : List Bool) :
     (applyG g bits qs).isSome = (applyG g bits qs').isSome := by
